@@ -5,6 +5,7 @@ import (
 	"os"
 	"path/filepath"
 	"runtime"
+	"runtime/debug"
 	"sync"
 	"sync/atomic"
 	"testing"
@@ -88,6 +89,9 @@ func StartGuard() {
 			var kb uint64
 			if _, err := fmt.Sscanf(string(b), "MemTotal: %d kB", &kb); err == nil && kb > 0 {
 				MemLimit = kb * 1024 / 10 * 6 // 60 % of the machine
+				// the checks run with GC percent 800 (speed); near a third of the machine the collector is told
+				// to work harder instead of letting garbage pile up
+				debug.SetMemoryLimit(int64(kb * 1024 / 3))
 			}
 		}
 		if n := envInt("VERIF_MEM_LIMIT_MB", 0); n > 0 {
